@@ -17,11 +17,12 @@ RTN = z3.RTN()
 
 
 class SymFloat:
-    __slots__ = ("t", "ratio")
+    __slots__ = ("t", "ratio", "quot")
 
-    def __init__(self, t, ratio=None):
+    def __init__(self, t, ratio=None, quot=None):
         self.t = t
-        self.ratio = ratio
+        self.ratio = ratio      # (num SymInt, den int): exact rational, den a power of two
+        self.quot = quot        # (num SymInt, den float): value is fl(num / den), |num| < 2**52
 
     # conversions
     def __float__(self):
@@ -193,13 +194,20 @@ def truediv(a, b):
     if not isinstance(b, (int, float)):
         if bool(SymBool(z3.fpIsZero(fb.t))):
             raise ZeroDivisionError("float division by zero")
-    ratio = None
-    if isinstance(a, SymInt) and _is_pow2_float(b) and -(1 << 52) < a.lo and a.hi < (1 << 52):
-        ratio = (a, int(b))
-    return SymFloat(z3.fpDiv(RNE, fa.t, fb.t), ratio)
+    ratio = quot = None
+    if isinstance(a, SymInt) and -(1 << 52) < a.lo and a.hi < (1 << 52):
+        if _is_pow2_float(b):
+            ratio = (a, int(b))
+        if isinstance(b, (int, float)) and not isinstance(b, bool) and abs(b) >= 1:
+            quot = (a, float(b))
+    return SymFloat(z3.fpDiv(RNE, fa.t, fb.t), ratio, quot)
 
 
 def compare(a, b, op):
+    # fl(x/d) is injective in the integer x for |x| < 2**52 and |d| >= 1: decide equality on integers
+    if op == "==" and isinstance(a, SymFloat) and isinstance(b, SymFloat) and a.quot and b.quot \
+            and a.quot[1] == b.quot[1]:
+        return a.quot[0] == b.quot[0]
     fa, fb = lift(a), lift(b)
     if fa is None or fb is None:
         return False if op == "==" else NotImplemented
